@@ -40,7 +40,9 @@ def url_info(u: str):
     ll = None
     if hostname:
         try:
-            ll = bool(ip_address(hostname).is_link_local)
+            ip = ip_address(hostname)
+            # the oracle answers "is this host an IPv6 link-local address?" (only those take the sender's scope id; D38)
+            ll = bool(ip.version == 6 and ip.is_link_local)
         except ValueError:
             ll = None
     return {"scheme": d.scheme, "path": d.path, "query": d.query, "fragment": d.fragment,
@@ -128,7 +130,8 @@ class Plugin:
         if lname == "location":
             return rng.choice(LOCATIONS)
         if lname == "usn":
-            return rng.choice(["uuid:dev-1::upnp:rootdevice", "UUID:Dev-2", "uuid:", "uuid::x", "notuuid:1", "uuİd:x", "", "uuid:a::b::c"])
+            return rng.choice(["uuid:dev-1::upnp:rootdevice", "UUID:Dev-2", "uuid:", "uuid::x", "notuuid:1", "uuİd:x", "", "uuid:a::b::c",
+                               "Uuid:Dev-3::upnp:rootdevice", "uUID:dev-4", "uuiD:x::y", "UuId:"])
         if lname == "cache-control":
             return rng.choice(["max-age=1800", "no-cache", "MAX-AGE = 5"])
         r = rng.random()
